@@ -2,7 +2,7 @@
    Only statements, closed by [exact lemma], with Print Assumptions beneath. *)
 From Coq Require Import String List NArith ZArith Bool Permutation.
 From J5V.lib Require Import Outcome.
-From J5V.model Require Import ReflectDesc ReflectSchema Reflect ReflectOwn ExportForm Export ExportApi.
+From J5V.model Require Import ReflectDesc ReflectSchema Reflect ReflectOwn ExportForm Export ExportFields ExportApi.
 From J5V.gen Require ReflectGen.
 From J5V.proofs Require Import ReflectProofs ExportProofs ReflectInvProofs ReflectWeakProofs ExportApiProofs.
 Import ListNotations.
@@ -45,6 +45,18 @@ Print Assumptions C15_root_inverse.
 Theorem C15_export_is_erasure : forall r, export_root r = form_of_root r.
 Proof. exact export_root_form. Qed.
 Print Assumptions C15_export_is_erasure.
+
+(* "no rule, enum option info, entity marker, any-membership or list rule is lost", against the code's own
+   list: every field of every message of j5/schema/v1/schema.proto (the structs of schema.pb.go, regenerated
+   from /repo on every run) is either built member by member by the export AND read by the import, or
+   carried as one value (rules / list rules / ext / entity payloads, whole scalar fields), or never produced
+   (inline alternatives), or deliberately dropped by name (ObjectField.entity; MapField.key_schema by the
+   import): a field added to schema.proto, an export line or an import read that disappears breaks this *)
+Theorem C15_every_field_of_schema_proto_is_accounted_for :
+  classes_cover = true /\ export_covers = true /\ import_covers = true /\ dropped_exact = true /\
+  export_builds_only_built = true.
+Proof. exact export_import_cover_schema_proto. Qed.
+Print Assumptions C15_every_field_of_schema_proto_is_accounted_for.
 
 (* where nothing is lost the import gives back the very same object: enums *)
 Theorem C15_enum_exact : forall n d p o i,
